@@ -42,6 +42,7 @@ def check_image(img, files):
 
 class C15(PropertyCheck):
     pid = "C15"
+    source_tables = ["PACK_CONSTS"]   # tables / constants regenerated from /repo's source (gen/srctables.py)
     release_too = True      # the C05 cases speak about both arithmetic profiles
     rule = ("streams: serialize (ordered maps of 0-40 files, body lengths around multiples of 32, empty bodies, lossless Shift-JIS names "
             "incl. prefixes of each other: image compared byte-exact with the extracted model, parse(serialize(x)) with x); layout "
